@@ -30,6 +30,7 @@ mod zmodel;
 mod p17;
 mod p18;
 mod p19;
+mod p20;
 
 use ctx::{Ctx, Tier};
 use std::path::PathBuf;
@@ -138,6 +139,7 @@ fn main() {
         "C17" => p17::run(&mut c),
         "C18" => p18::run(&mut c),
         "C19" => p19::run(&mut c),
+        "C20" => p20::run(&mut c),
         _ => {
             eprintln!("unknown property {}", prop);
             std::process::exit(2)
